@@ -145,6 +145,8 @@ def eval_num(v, env):
             return max(eval_num(args[0], env), eval_num(args[1], env))
         if f.startswith('as:'):
             return eval_num(args[0], env)
+        if f == 'abs':
+            return abs(eval_num(args[0], env))
     raise ValueError('cannot evaluate %r' % (v,))
 
 
